@@ -171,4 +171,15 @@ pub fn gen(tier: &str, rng: &mut Rng, out: &mut Vec<String>) {
     for _ in 0..n_h {
         out.push(format!("c19.hash {} {} {} {} {} {}", boundary_u32(rng), hexd(&rng.bytes(32)), hexd(&rng.bytes(32)), boundary_u32(rng), boundary_u32(rng), boundary_u32(rng)));
     }
+    // (d') runs of RELATED headers hashed one after the other (the requests of a run are executed in order on one thread): the
+    // same header twice, then headers that differ from their predecessor in exactly one field or one byte of a hash field - a
+    // hash that is not a function of its own 80 bytes alone (anything remembered from the previous call) shows up here
+    for _ in 0..(if thorough { 400 } else { 40 }) {
+        let (mut ver, mut prev, mut root, mut ts, mut bits, mut nonce) = (boundary_u32(rng), rng.bytes(32), rng.bytes(32), boundary_u32(rng), boundary_u32(rng), boundary_u32(rng));
+        for step in 0..14 {
+            out.push(format!("c19.hash {} {} {} {} {} {}", ver, hexd(&prev), hexd(&root), ts, bits, nonce));
+            match step % 7 { 0 => {}, 1 => { let p = rng.below(28) as usize; root[p] ^= 1 << rng.below(8); }, 2 => { root[28 + rng.below(4) as usize] ^= 0x10; }, 3 => { nonce = nonce.wrapping_add(1); },
+                4 => { ts = ts.wrapping_add(600); }, 5 => { let p = rng.below(32) as usize; prev[p] = prev[p].wrapping_add(1); }, _ => { if rng.chance(1, 2) { bits ^= 1; } else { ver = ver.wrapping_add(1); } } }
+        }
+    }
 }
